@@ -287,3 +287,6 @@ pub use builder::RegExpBuilder;
 
 #[cfg(target_family = "wasm")]
 pub use wasm::RegExpBuilder as WasmRegExpBuilder;
+
+#[cfg(grex_verif)]
+pub mod verif_hooks;
